@@ -34,12 +34,26 @@ def h(t, part):
     is_coro = inspect.iscoroutinefunction(real)
     calls = []
 
+    outcome = part.get('outcome', 'object')      # what the underlying method does: return a value / raise
+    if outcome == 'any':
+        ocs = ['empty-dict', 'none', 'raises'] + (['cancelled'] if cname.startswith('Async') else [])
+        outcome = ocs[t.choice(len(ocs))]
+    RETV = {'object': RET, 'empty-dict': {}, 'empty-list': [], 'none': None, 'zero': 0}.get(outcome, RET)
+
+    class Oops(Exception):
+        pass
+
     def record(*a, **kw):
         ba = sig.bind(None, *a, **kw)
         d = dict(ba.arguments)
         d.pop('self', None)
         calls.append(d)
-        return RET
+        if outcome == 'raises':
+            raise Oops('from the underlying method')
+        if outcome == 'cancelled':
+            import asyncio
+            raise asyncio.CancelledError()
+        return RETV
 
     async def arecord(*a, **kw):
         return record(*a, **kw)
@@ -73,7 +87,7 @@ def h(t, part):
             ns._set_server(target)
     given = {}
     for i, n in enumerate(names):
-        if i < npos or n in required or t.bool():
+        if i < npos or n in required or (not part.get('minimal') and t.bool()):
             if n == 'namespace':
                 given[n] = ['/other', None, ''][t.choice(3)] if i >= npos else '/other'
             elif n == 'callback':
@@ -87,10 +101,24 @@ def h(t, part):
     args = [given[n] for n in names[:npos]]
     kwargs = {n: v for n, v in given.items() if n not in names[:npos]}
     drv = worlds.AsyncDriver() if (is_coro or 'Async' in cname) else worlds.SyncDriver()
+    raised = None
     try:
         ret = drv.call(getattr(ns, helper)(*args, **kwargs))
     except TypeError as e:
         return Fail('helper:%s.%s:rejects-arguments' % (cname, helper), 'args %r kwargs %r: %r' % (args, kwargs, e))
+    except Oops as e:
+        raised = 'Oops'
+    except BaseException as e:      # noqa: asyncio.CancelledError must pass through like any other outcome
+        if type(e).__name__ != 'CancelledError':
+            raise
+        raised = 'CancelledError'
+    if outcome in ('raises', 'cancelled'):
+        t.reached('helper')
+        want = 'Oops' if outcome == 'raises' else 'CancelledError'
+        if raised != want:
+            return Fail('helper:%s.%s:exception-not-propagated' % (cname, helper), 'the method raised %s, the helper %s' % (
+                want, 'raised ' + raised if raised else 'returned %r' % (ret,)))
+        return None
     t.reached('helper')
     t.note(cname, helper, 'positional', npos, 'given', sorted(given))
     if len(calls) != 1:
@@ -111,8 +139,9 @@ def h(t, part):
         if got.get('namespace') != want:
             return Fail('helper:%s.%s:namespace' % (cname, helper), 'caller gave %r, method received %r (registered for '
                         '/registered)' % (given.get('namespace', '<omitted>'), got.get('namespace')))
-    if ret is not RET:
-        return Fail('helper:%s.%s:return' % (cname, helper), repr(ret))
+    if ret is not RETV:
+        return Fail('helper:%s.%s:return' % (cname, helper), 'the method returned %r (id %d), the helper %r (id %d)' % (
+            RETV, id(RETV), ret, id(ret)))
     # a later call without a namespace still means the registration namespace (an earlier override must not stick)
     if 'namespace' in names and given.get('namespace'):
         del calls[:]
@@ -136,6 +165,8 @@ def parts(tier):
                 out += [{'cls': c, 'helper': hn, 'npos': k} for k in range(n + 1)]
             else:
                 out.append({'cls': c, 'helper': hn})
+            # results and exceptions pass through unchanged (incl. falsy results and cancellation)
+            out.append({'cls': c, 'helper': hn, 'outcome': 'any', 'minimal': True})
     return out
 
 
